@@ -35,19 +35,7 @@ def budget(tier):
     return 250 if tier == "quick" else 6000
 
 
-CMDS = ([{"op": "sync"}] * 0 + [{"op": "scrub", "plan": p} for p in ("full", "new", "bad", "50", "100", "0")] + [{"op": "scrub"}] +
-        [{"op": "fix", "mode": m} for m in ("all", "parity", "missing", "errors", "filter")] +
-        [{"op": "check"}, {"op": "check", "a": True}, {"op": "rehash"}, {"op": "touch"}, {"op": "status"}, {"op": "diff"}, {"op": "rewrite_content"}])
-
-
-def decode_step(sel, t, bs, nd):
-    if sel <= 4:
-        return gen.decode_fs(t, bs, nd)
-    if sel <= 6:
-        return gen.decode_sync(t)
-    if sel == 7:
-        return dict(CMDS[t[1] % len(CMDS)])
-    return {"op": "lose_files", "disk": t[1] % nd, "n": 1 + t[2] % 3, "fi": t[3]}
+from prog import decode_step, run_command, run_history, cfg_classes, ev_json
 
 
 def decode_case(raw):
@@ -66,125 +54,36 @@ def strategy(tier):
                      st.lists(st.tuples(st.integers(0, 8), gen.STEP), min_size=8, max_size=45)).map(decode_case)
 
 
-def run_command(w, s):
-    """execute one command step; returns Run"""
-    op = s["op"]
-    if op == "sync":
-        a = []
-        if "S" in s:
-            a += ["-S", str(s["S"])]
-        if "B" in s:
-            a += ["-B", str(s["B"])]
-        for f in ("F", "R", "h", "N"):
-            if s.get(f):
-                a.append("-" + f)
-        a += ["-E"] if s.get("E", True) else []
-        a += ["-Z"] if s.get("Z", True) else []
-        if s.get("kill_after"):
-            a.append("--test-kill-after-sync")
-        return w.cmd("sync", a)
-    if op == "scrub":
-        a = ["-p", s["plan"]] if "plan" in s else []
-        return w.cmd("scrub", a)
-    if op == "fix":
-        m = s.get("mode", "all")
-        a = {"all": [], "parity": ["-d", "parity"], "missing": ["-m"], "errors": ["-e"], "filter": ["-f", "a"]}[m]
-        return w.cmd("fix", a)
-    if op == "check":
-        return w.cmd("check", ["-a"] if s.get("a") else [])
-    if op == "rehash":
-        cur = w.arr.cfg.get("hash")
-        try:
-            c = w.content_model()
-        except Exception:
-            c = None
-        kind = c.hash[0] if c else (cur or "spooky2")
-        w.arr.cfg["hash"] = "murmur3" if kind == "spooky2" else "spooky2"
-        return w.cmd("rehash")
-    if op == "rewrite_content":
-        return w.cmd("test-rewrite")
-    return w.cmd(op)
-
-
 def run_case(case, ctx):
     cfg = dict(case["cfg"])
     cfg["rules"] = ["exclude *.unrecoverable"]
     w = World(cfg, ctx.rel)
-    classes = set()
-    n_sync = 0
-    change_between = False
-    stripes_checked = 0
-    pending_change = False
-    ncmd = 0
+    tot = {"stripes": 0}
     try:
         for s in case["init"]:
             w.fs_step(s)
         r = w.cmd("sync")
         if r.rc != 0:
-            return Outcome(ok=True, fp=None, nontrivial=False, classes=["initial sync refused"], inconclusive=False)
+            return Outcome(ok=True, classes=["initial sync refused"])
         probs, stats = w.oracle()
         if probs:
             return Outcome(ok=False, why="after initial sync: " + probs[0], detail=probs[:5])
-        n_sync = 1
-        for i, s in enumerate(case["prog"]):
-            op = s["op"]
-            if op in ("sync", "scrub", "fix", "check", "rehash", "touch", "status", "diff", "rewrite_content"):
-                if op == "touch":
-                    # touch sets sub-second time-stamps of the files on disk: register the new identities afterwards
-                    before = w.arr.snap_data()
-                r = run_command(w, s)
-                ncmd += 1
-                if r.timed_out:
-                    return Outcome(ok=True, inconclusive=True, why="timeout")
-                if r.rc < 0:
-                    return Outcome(ok=False, why="step %d: %s died with signal %d: %s" % (i, op, -r.rc, r.err[-300:].decode("latin-1")))
-                if op == "touch":
-                    after = w.arr.snap_data()
-                    for dn, tree in after.items():
-                        for rel, e in tree.items():
-                            if e[0] == "f" and before[dn].get(rel, (None,))[0] == "f" and before[dn][rel][3] != e[3] and before[dn][rel][1] == e[1]:
-                                w.store.put(dn, rel, e[1], e[3])
-                if op == "sync":
-                    if r.rc == 0 and not s.get("kill_after") and "B" not in s:
-                        n_sync += 1
-                        if pending_change:
-                            change_between = True
-                        pending_change = False
-                    for k in ("B", "S", "F", "R", "h", "N", "kill_after"):
-                        if k in s:
-                            classes.add("sync -" + k if len(k) == 1 else "sync " + k)
-                else:
-                    classes.add(op)
-                probs, stats = w.oracle()
-                stripes_checked += stats["stripes_checked"]
-                if probs:
-                    return Outcome(ok=False, why="after step %d (%s rc=%d): %s" % (i, json.dumps(s), r.rc, probs[0]), detail=probs[:5])
-            elif op == "lose_files":
-                # a loss the user may suffer at any time; not harness damage to parity-covered blocks' records:
-                d = w.ndisk(s["disk"])
-                for k in range(s["n"]):
-                    rel = w.pick(d, s["fi"] + k)
-                    if rel is not None:
-                        import os
-                        os.unlink(w.full(d, rel))
-                classes.add("files lost")
-                pending_change = True
-            else:
-                ev = w.fs_step(s)
-                if ev and ev[0] in ("delete", "move", "truncate", "rename", "file_to_dir", "file_to_link"):
-                    pending_change = True
-        c = case["cfg"]
-        if c.get("splits"):
-            classes.add("split parity")
-        if c["hashsize"] != 16:
-            classes.add("reduced hash")
-        if c.get("zparity"):
-            classes.add("z-parity")
-        classes.add("levels=%d" % c["levels"])
-        nontrivial = n_sync >= 2 and change_between and stripes_checked > 0
+
+        def after(i, s, r):
+            probs, stats = w.oracle()
+            tot["stripes"] += stats["stripes_checked"]
+            if probs:
+                return "after step %d (%s rc=%d): %s" % (i, json.dumps(s), r.rc, probs[0])
+            return None
+        fail, hs = run_history(w, case["prog"], after)
+        if hs["timeout"]:
+            return Outcome(ok=True, inconclusive=True, why="timeout")
+        if fail:
+            return Outcome(ok=False, why=fail)
+        classes = set(hs["classes"]) | set(cfg_classes(case["cfg"]))
+        nontrivial = hs["syncs_ok"] >= 1 and hs["change_between_syncs"] and tot["stripes"] > 0
         fp = hashlib.sha1(json.dumps(case, sort_keys=True).encode()).hexdigest()[:16]
-        sample = {"cfg": case["cfg"], "events": [list(map(lambda x: x.decode("latin-1") if isinstance(x, bytes) else x, e)) for e in w.events[:40]],
-                  "stripe_checks": stripes_checked, "commands": ncmd}
+        sample = {"cfg": case["cfg"], "events": ev_json(w.events), "stripe_checks": tot["stripes"], "commands": hs["commands"]}
         return Outcome(ok=True, fp=fp, nontrivial=nontrivial, classes=sorted(classes), sample=sample)
     finally:
         w.destroy()
